@@ -71,6 +71,8 @@ def ctor(kind, variants, vi, vals, path="T", drop=None):
 def build(name, shape_id, ignored, transparent, spec, entry="attr", generic=False, nested=False, list_args="Debug"):
     kind, variants = SHAPES[shape_id]
     ignored = set(ignored)
+    # one transparent field (vi, fi), or several - one per variant at most - as a tuple of positions
+    tr_set = set() if transparent is None else ({transparent} if isinstance(transparent[0], int) else set(transparent))
     desc = "shape=%s ignored=%s transparent=%s spec=%s entry=%s generic=%s nested=%s list=%s" % (shape_id, sorted(ignored), transparent, spec, entry, generic, nested, list_args)
     sig = "%s|ign=%s|tr=%s|%s|%s%s%s|%s" % (shape_id, ",".join("%d.%d" % x for x in sorted(ignored)), transparent, spec, entry, "|generic" if generic else "",
                                            "|nested" if nested else "", list_args)
@@ -80,7 +82,7 @@ def build(name, shape_id, ignored, transparent, spec, entry="attr", generic=Fals
         a = []
         if (vi, fi) in ignored:
             a.append("ignore")
-        if transparent == (vi, fi):
+        if (vi, fi) in tr_set:
             a.append("transparent")
         return "#[debug(%s)]" % ", ".join(a) if a else ""
 
@@ -103,8 +105,8 @@ def build(name, shape_id, ignored, transparent, spec, entry="attr", generic=Fals
     for vi, (vn, vk, fields) in enumerate(variants):
         vals = ["v%d" % i for i in range(len(fields))]
         x = ctor(kind, variants, vi, vals, "T")
-        if transparent is not None and transparent[0] == vi:
-            second = "let _ = write!(s2, \"%s\", v%d);" % (spec, transparent[1])
+        if any(t[0] == vi for t in tr_set):
+            second = "let _ = write!(s2, \"%s\", v%d);" % (spec, [t[1] for t in tr_set if t[0] == vi][0])
         else:
             y = ctor(kind, variants, vi, vals, "twin::T", drop=drop)
             second = "let y = %s; let _ = write!(s2, \"%s\", y);" % (y, spec)
@@ -148,6 +150,9 @@ def candidates(tier, rnd):
     c.append(("named2", (), (0, 1), spec(), "attr", False, False, "Debug"))
     c.append(("enum-mixed", (), (2, 1), spec(), "attr", False, False, "Debug"))
     c.append(("named2", ((0, 1),), (0, 1), "{:?}", "attr", False, False, "Debug"))  # ignore + transparent on the same field
+    # a transparent field in two different variants of one enum (the `only one field` rule is per variant)
+    c.append(("enum-mixed", (), ((1, 0), (2, 1)), "{:?}", "attr", False, False, "Debug"))
+    c.append(("enum-mixed", ((2, 0),), ((1, 0), (2, 1)), "{:8?}", "derive", False, False, "Debug"))
     # tuple variants / tuple structs: ignoring a non-trailing field, a transparent non-first field
     c.append(("enum-single", ((0, 0),), None, "{:?}", "attr", False, False, "Debug"))
     c.append(("enum-single", (), (0, 1), "{:8?}", "attr", False, False, "Debug"))
